@@ -269,6 +269,27 @@ def gen_field_fault(rng, spec, info, field=None, direction=None):
                                                       else max(0, tv - rng.randint(2, 9)))
     else:
         nv = tv + 2 if rng.chance(0.3) else (tv + rng.randint(2, 40) if rng.chance(0.7) else tv * 2 + rng.randint(1, 5))
+    # an END offset at or just before its own BEGIN (empty / negative extent) and a BEGIN at or just past its END are
+    # boundaries of their own
+    partner = None
+    if field.startswith('H:') and field.endswith('_end'):
+        partner = field[:-4] + '_begin'
+    elif field.startswith('H:') and field.endswith('_begin'):
+        partner = field[:-6] + '_end'
+    elif field.startswith('$END'):
+        partner = '$BEGIN' + field[4:]
+    elif field.startswith('$BEGIN'):
+        partner = '$END' + field[6:]
+    if partner in info['fields'] and direction in ('smaller', 'larger') and rng.chance(0.25):
+        try:
+            pv = int(info['fields'][partner].strip() or 0)
+        except ValueError:
+            pv = 0
+        if pv > 0:
+            if 'end' in field.lower() and direction == 'smaller':
+                nv = pv + rng.choice([-2, -1, 0])
+            elif 'begin' in field.lower() and direction == 'larger':
+                nv = pv + rng.choice([0, 1, 2])
     if nv < 0:
         nv = 0 if tv != 0 else 1
     if nv == tv:
